@@ -68,6 +68,9 @@ def obligations_of(ex, spec):
         if it.get("type_item"):
             continue
         obs.append("%s::body" % name)   # callee preconditions, overflow, bounds, asserts, termination
+        # generated in-body obligations that carry their own name (`/* push pair #k */`)
+        for k in sorted(set(int(x) for x in re.findall(r"/\* push pair #(\d+) \*/", it.get("emitted", "")))):
+            obs.append("%s::push_pair#%d" % (name, k))
         if name in spec.fn:
             c = count_clauses(spec.fn[name][0])
             for k in range(c["ensures"]):
@@ -212,6 +215,9 @@ def run(unit_name, repo, outdir, extra_args=(), probe=False, timeout=900):
             ob = "%s::%s" % (fn, label)
         else:
             ob = "%s::body" % fn
+            mm = re.search(r"/\* push pair #(\d+) \*/", src_line or "")
+            if mm:
+                ob = "%s::push_pair#%s" % (fn, mm.group(1))
         # secondary span tells which call / which exit
         sec = [s for s in spans if not s.get("is_primary")]
         at = ""
